@@ -213,3 +213,58 @@ def run(ctx):
     for f in D.faults:
         ctx.begin_case(())
         ctx.violation('D-monitor', f, features=['api:D'])
+
+    # fresh-process probes: in this process every type set has long been constructed (the model bridge enumerates
+    # all 128); an implementation whose answer depends on which sets already exist as objects is only visible
+    # where the operation under test is the *first* to produce its result, i.e. in a new interpreter
+    import json
+    import subprocess
+    import sys
+
+    from .. import env
+
+    script = (
+        'import sys, json, functools, operator\n'
+        'sys.path.insert(0, sys.argv[1])\n'
+        'from hpl.types import DataType as D\n'
+        'out = []\n'
+        'for op, sa, sb in json.loads(sys.argv[2]):\n'
+        '    a = functools.reduce(operator.or_, [D[n] for n in sa])\n'
+        '    b = functools.reduce(operator.or_, [D[n] for n in sb])\n'
+        '    try:\n'
+        '        r = a.cast(b) if op == "cast" else (a.can_be(b) if op == "can_be" else D.union([a, b]))\n'
+        '        out.append(["ok", r if isinstance(r, bool) else r.value])\n'
+        '    except TypeError:\n'
+        '        out.append(["TypeError", None])\n'
+        '    except BaseException as e:\n'
+        '        out.append([type(e).__name__, None])\n'
+        'print(json.dumps(out))\n')
+    n_probe = ctx.share(32 if ctx.tier == 'quick' else 480)
+    for _ in range(n_probe):
+        probes = []
+        for _k in range(3):
+            sa = rng.sample(typeset.BASE, rng.randrange(2, 5))
+            sb = rng.sample(typeset.BASE, rng.randrange(2, 5))
+            probes.append((rng.choice(('cast', 'cast', 'can_be', 'union')), sa, sb))
+        try:
+            r = subprocess.run([sys.executable, '-c', script, env.SRC, json.dumps(probes)], capture_output=True, text=True,
+                               timeout=120)
+            got = json.loads(r.stdout.strip().splitlines()[-1])
+        except Exception as ex:  # no answer is no verdict
+            ctx.skip('fresh-process-probe-failed:' + type(ex).__name__)
+            continue
+        for (op, sa, sb), (st, val) in zip(probes, got):
+            s, t = frozenset(sa), frozenset(sb)
+            ctx.evaluation(f'fresh/{op}/{len(s & t)}/{len(s)}/{len(t)}', True)
+            ctx.count('fresh_process_probes')
+            if op == 'cast':
+                exp = ('ok', br.member(s & t).value) if (s & t) else ('TypeError', None)
+            elif op == 'can_be':
+                exp = ('ok', bool(s & t))
+            else:
+                exp = ('ok', br.member(s | t).value)
+            if (st, val) != exp:
+                ctx.begin_case(())
+                ctx.violation('fresh-process-' + op, {'first_operand_built_from': sa, 'second_operand_built_from': sb,
+                                                      'expected': list(exp), 'observed': [st, val],
+                                                      'note': 'first operation of a new interpreter on this pair'}, ())
